@@ -36,6 +36,10 @@ CLAIMED["C11"] = dict(engine="E1", technique="symbolic execution of the real pol
     text="Encoder: all 2^N inputs of polar_transform and all messages of a (2,k) batch per (k,N,frozen value,interleave,mask) configuration in one query each; information set compared with an independent reading of the 5G ranking. Decoders: clean LLRs with symbolic magnitudes in [0.5,50] decode to the message; SC equals the textbook recursion for every tie-free real LLR vector.",
     note="Floats of symbolic quantities are reals; exact-zero decision LLRs are excluded (recorded assumption: the code maps sign 0 to 0.5); tanh/atanh are uninterpreted functions with sound axioms, so sum-product items are stretch. Bounds: encoder N <= 64 (1024 thorough), SC N <= 8 (16 stretch), BP N <= 4 (8 stretch), iterations <= 2 (3).",
     ref="DESIGN.md §4 C11")
+CLAIMED["C05"] = dict(engine="E1", technique="symbolic execution of the real modulator and hard demodulator on symbolic bit tensors; values that depend on few bits are finite tables with torch-computed leaves; z3 decides 'exists bits: demod(mod(bits)) != bits' over the tables' guard formulas",
+    text="Every bit sequence of L symbols (L = 2/3) in three layouts, for every scheme/order/labelling/normalisation option of the catalogue (also through the registry), in one query per output tensor; memory schemes after reset in eval mode with their documented start-up loss.",
+    note="Table leaves are computed by torch itself (exact float32/complex64), so there is no reals-for-floats gap here; the table domain is limited to 16 selector bits per element. Orders up to 16 (quick) / 64 (thorough), QAM-256 stretch.",
+    ref="DESIGN.md §4 C05")
 NOT_YET = {}
 
 PENDING_REASON = "check not built yet in this round (planned: see DESIGN.md §8); not claimed until its check exists"
